@@ -181,7 +181,7 @@ func BuildMsg(w *mc.World, m model.Msg) sdk.Msg {
 
 // BuildTx builds the signing spec for a model transaction.
 func BuildTx(w *mc.World, t model.Tx) mc.TxSpec {
-	ts := mc.TxSpec{FeeGranter: t.FeeGranter, BadSig: t.BadSig, SeqDelta: t.SeqDelta}
+	ts := mc.TxSpec{FeeGranter: t.FeeGranter, FeePayer: t.FeePayer, BadSig: t.BadSig, SeqDelta: t.SeqDelta}
 	for _, m := range t.Msgs {
 		ts.Msgs = append(ts.Msgs, BuildMsg(w, m))
 	}
